@@ -84,8 +84,9 @@ def why(u, c, v):
     try:
         cu = clean(u)
         a, b = IR(cu), IR(c)
-        if (a == cu) != (b == c) or (a != cu and C(a) != C(b)):
-            # the redirection inferred from the raw spelling is not the one inferred from the canonical spelling
+        if (a == cu) != (b == c):
+            # exactly one of the two spellings (raw, canonical) shows a redirection hint to infer_redirection, which reads the raw string
+            # (when both resolve, to different targets, the failure is reported under the ordinary id: it is not this mechanism)
             return "redirect-hint-read-on-the-raw-spelling"
     except Exception:
         pass
@@ -189,6 +190,7 @@ ESC_UPPER = [("http://a.com/?%42=1&a=2", "http://a.com/?B=1&a=2"), ("http://a.co
              ("cdn.ampproject.org:443/c/s/y.com/a", "https://cdn.ampproject.org/c/s/y.com/a"), ("x.com/?a=1&%61mp;x=1", "x.com/?a=1&amp;x=1"), ("x.com/?Q=http://y.com/a", "x.com/?q=http://y.com/a"),
              ("x.com/?Q=http://y.com/a", "y.com/a"), ("http://www.google.com/URL?Q=http%3A%2F%2Fy.com%2Fa", "http://www.google.com/url?q=http%3A%2F%2Fy.com%2Fa"),
              # an upper-case letter written as an escape INSIDE the escaped target of a redirect carrier (lower() of the carrier cannot reach it)
+             ("http://a.com/?a=1&AMP;b=2", "http://a.com/?AMP;b=2&a=1"), ("http://a.com/?a=1&Amp;b=2", "http://a.com/?a=1&amp;b=2"),  # the entity in another letter case
              ("a.com/straße", "a.com/stra%C3%9Fe"), ("a.com/x?q=ﬁn&ſ=1", "a.com/x?q=%EF%AC%81n&%C5%BF=1"), ("a.com/a#/straße", "a.com/a#/stra%C3%9Fe"), ("http://straße.de/", "http://STRAßE.de/"),  # lower() vs casefold()
              ("a.com/ΟΣA", "a.com/ΟΣ%41"), ("a.com/x?k=ΟΔΟΣ%2Ehtml", "a.com/x?k=ΟΔΟΣ.html"),  # a capital sigma lower-cases by context
              ("http://w.com/r?url=http%3A%2F%2Fx.com%2Fp%3F%51%3DA", "http://x.com/p?Q=A"), ("http://l.example.com/l.php?u=https%3A%2F%2Fx.com%2Fp%3F%42%3D1%26a%3D2", "https://x.com/p?B=1&a=2"),
@@ -198,7 +200,8 @@ ESC_TRACKING = [("http://a.com/x?%75tm_source=1&id=2", "http://a.com/x?id=2"), (
 
 
 # carriers / platform routes whose recognisable part is itself spelled with escapes, dot segments or other letter case
-CARRIER_SPELLINGS = ["http://google.com/%75rl?q=http://x.com", "http://www.google.com/./url?q=http%3A%2F%2Fy.com%2Fa", "http://cdn.ampproject.org/./c/s/x.com/a", "https://a.cdn.ampproject.org/c/x/../s/b.org/p",
+CARRIER_SPELLINGS = ["http://a.com/r?url=http%3A%2F%2Fb.org%2F" + "x%2F" * 900 + "end&z=1", "http://a.com/r?next=" + "%2Fseg" * 700, "http://a.com/?a=1&%41%4D%50;b=2", "http://a.com/?a=1&AMP;b=2&AMP%3Bc=3",
+                     "http://google.com/%75rl?q=http://x.com", "http://www.google.com/./url?q=http%3A%2F%2Fy.com%2Fa", "http://cdn.ampproject.org/./c/s/x.com/a",
                      "http://a.com/r?%75rl=http%3A%2F%2Fb.org%2Fp", "http://l.facebook.com/%6C.php?u=http%3A%2F%2Fb.org%2Fp", "http://a.com/x/..//r?next=%2Fhome", "http://a.com/r?u%72l=http%3A%2F%2Fb.org",
                      "http://youtube.com/%43hannel/UC123/videos", "https://www.youtube.com/%57atch?v=aBcDeFgHiJk", "https://www.facebook.com/%50hoto.php?fbid=10159", "https://www.youtube.com/./watch?v=aBcDeFgHiJk",
                      "https://www.youtube.com/%63/SomeName/videos", "https://youtu.be/%61BcDeFgHiJk", "https://www.facebook.com/groups/%31234/permalink/5678/"]
